@@ -99,6 +99,8 @@ def run_case(c):
         mc = ForceBias(atoms, delta=c["delta"], temperature=c["T"], seed=c["seed"], logfile=None)
     else:
         mc = AdaptiveForceBias(atoms, c["delta"] / 2, c["delta"], temperature=c["T"], seed=c["seed"], logfile=None)
+    if c.get("scale_masses") and drv in ("fbmc", "afbmc"):
+        mc.update_masses(np.array(c["scale_masses"], dtype=float))
     worst_fixed = 0.0
     worst_com = 0.0
     first_bad = None
